@@ -207,4 +207,41 @@ example : ∃ (enc : Bytes → Bytes) (dec : Bytes → Option Bytes), ∀ s, utf
 example : utf8Valid (strBytes "abc") = true ∧ utf8Valid [0xff, 0xfe] = false := by decide
 example : b64Encode (strBytes "Man") = strBytes "TWFu" ∧ b64Encode (strBytes "Ma") = strBytes "TWE=" := by decide
 
+/-- The text-vs-base64 decision looks at the WHOLE body: an ASCII preamble of any length followed
+by one byte that cannot start a UTF-8 sequence is not text (so `marshalPD` takes the base64 form,
+whatever the length of the preamble — a classifier that sniffs a prefix gets this wrong). -/
+theorem late_invalid_byte_is_not_text (pre post : Bytes) (b : UInt8) (hp : ∀ x ∈ pre, x < 0x80)
+    (hb : 0xF5 ≤ b) : utf8Valid (pre ++ b :: post) = false := by
+  induction pre with
+  | nil =>
+    have hb' : 245 ≤ b.toNat := by
+      have := UInt8.le_iff_toNat_le.mp hb
+      simpa using this
+    have h1 : ¬ b < 0x80 := by
+      intro h; have := UInt8.lt_iff_toNat_lt.mp h; simp at this; omega
+    have h2 : ¬ b ≤ 0xDF := by
+      intro h; have := UInt8.le_iff_toNat_le.mp h; simp at this; omega
+    have h3 : ¬ b ≤ 0xEF := by
+      intro h; have := UInt8.le_iff_toNat_le.mp h; simp at this; omega
+    have h4 : ¬ b ≤ 0xF4 := by
+      intro h; have := UInt8.le_iff_toNat_le.mp h; simp at this; omega
+    rw [List.nil_append]
+    unfold utf8Valid
+    simp [h1, h2, h3, h4]
+  | cons a t ih =>
+    have ha : a < 0x80 := hp a (by simp)
+    have := ih (fun x hx => hp x (by simp [hx]))
+    rw [List.cons_append]
+    unfold utf8Valid
+    simp [ha, this]
+
+theorem late_invalid_byte_is_base64 (enc : Bytes → Bytes) (p : PostData) (pre post : Bytes) (b : UInt8)
+    (ht : p.text = pre ++ b :: post) (hp : ∀ x ∈ pre, x < 0x80) (hb : 0xF5 ≤ b) :
+    (marshalPD enc p).encoding = some (enc base64Tok) ∧ (marshalPD enc p).text = enc (b64Encode p.text) := by
+  simp [marshalPD, ht, late_invalid_byte_is_not_text pre post b hp hb]
+
+example : utf8Valid (List.replicate 600 97 ++ [0xFF]) = false :=
+  late_invalid_byte_is_not_text (List.replicate 600 97) [] 0xFF
+    (by intro x hx; rw [List.eq_of_mem_replicate hx]; decide) (by decide)
+
 end Martian.Props.C16
